@@ -3,6 +3,8 @@
       util.rs (pad_to_align, write_*, insert_u32, marshal_unixfd, check_marshalled_array_len)
     - dynamic API: rustbus/src/wire/marshal/param/{base,container}.rs, params/types.rs (Variant),
       params/validation.rs (validate_array, validate_dict)
+    The Param tree is a [val] as well: Param::sig() is [ty_of]; a [VBase b n] with a text [b] or a [VText b s]
+    with a fixed-width [b] has no Rust counterpart (the Base enum carries the payload of its own kind).
     The context is the output buffer and the number of descriptors already attached; both are
     returned on error too (what a failed call leaves behind matters for the body builder).
     In the INPUT value of a marshal call a [VBase BUnixFd n] leaf is a descriptor handle:
@@ -194,12 +196,42 @@ Fixpoint marshal_p (be : bool) (depth : N) (v : val) (c : mctx) {struct v} : mre
            else ({| mbuf := insert4 be n len_pos (mbuf c'); mfds := mfds c' |}, true))
   | VVariant t x =>
       if MAX_DEPTH <=? depth then (c, false) else
-      (* marshal_variant: marshal_signature(var.sig) validates the printed signature *)
+      (* marshal_variant: var.sig != var.value.sig() is refused before anything is written (fix 35497e7);
+         Param::sig() is [ty_of]: declared element / key / value types of arrays and dicts, computed for structs *)
+      if negb (ty_eqb (ty_of x) t) then (c, false) else
+      (* marshal_signature(var.sig) validates the printed signature *)
       let sg := to_str t in
       if is_ok (validate_signature sg) then
         marshal_p be (depth + 1) x {| mbuf := write_signature sg (mbuf c); mfds := mfds c |}
       else (c, false)
   end.
+
+(* check_param_shape / check_container_shape (fix 5849d4e): containers at depth >= 64 and structs without
+   fields are refused; the walk goes through array elements, struct fields, dict VALUES (keys are Base) and
+   variant values *)
+Fixpoint shape_ok (depth : N) (v : val) {struct v} : bool :=
+  match v with
+  | VBase _ _ | VText _ _ => true
+  | VArray _ vs => if MAX_DEPTH <=? depth then false else forallb (shape_ok (depth + 1)) vs
+  | VStruct vs =>
+      if MAX_DEPTH <=? depth then false else
+      match vs with [] => false | _ => forallb (shape_ok (depth + 1)) vs end
+  | VDict _ _ kvs => if MAX_DEPTH <=? depth then false else forallb (fun kv => shape_ok (depth + 1) (snd kv)) kvs
+  | VVariant _ x => if MAX_DEPTH <=? depth then false else shape_ok (depth + 1) x
+  end.
+
+(* the public entry points marshal_param / marshal_container_param: the shape check, then the marshaller at
+   depth 0; a failed shape check has written nothing *)
+Definition marshal_param_top (be : bool) (v : val) (c : mctx) : mres :=
+  if shape_ok 0 v then marshal_p be 0 v c else (c, false).
+
+Lemma marshal_param_top_ok be v c c' : marshal_param_top be v c = (c', true) ->
+  shape_ok 0 v = true /\ marshal_p be 0 v c = (c', true).
+Proof. unfold marshal_param_top. destruct (shape_ok 0 v); [auto|discriminate]. Qed.
+Lemma marshal_param_top_shape be v c : shape_ok 0 v = true -> marshal_param_top be v c = marshal_p be 0 v c.
+Proof. unfold marshal_param_top. now intros ->. Qed.
+Lemma marshal_param_top_refused be v c : shape_ok 0 v = false -> marshal_param_top be v c = (c, false).
+Proof. unfold marshal_param_top. now intros ->. Qed.
 
 (** equation lemmas: the inner loops are [marshal_seq] / [marshal_entries] (by conversion) *)
 Lemma marshal_seq_cons m x r c : marshal_seq m (x :: r) c = mbind (m x c) (marshal_seq m r).
